@@ -161,6 +161,14 @@ def _const_truth(t):
 class _Hoist(ast.NodeTransformer):
     def visit_IfExp(self, node):
         self.generic_visit(node)
+        # `False if c else True` / `True if c else False` over a comparison are `not c` / `c`
+        if isinstance(node.body, ast.Constant) and isinstance(node.orelse, ast.Constant) and isinstance(node.body.value, bool) \
+                and isinstance(node.orelse.value, bool) and node.body.value != node.orelse.value \
+                and isinstance(node.test, (ast.Compare, ast.BoolOp)) or (isinstance(node.test, ast.UnaryOp) and isinstance(node.test.op, ast.Not)
+                                                                          and isinstance(node.body, ast.Constant) and isinstance(node.orelse, ast.Constant)
+                                                                          and isinstance(node.body.value, bool) and isinstance(node.orelse.value, bool)
+                                                                          and node.body.value != node.orelse.value):
+            return self.visit(node.test if node.body.value else neg_ast(node.test))
         v = _const_truth(node.test)
         if v is True:
             return node.body
@@ -177,6 +185,40 @@ class _Hoist(ast.NodeTransformer):
             v = ast.Name(id='_m', ctx=ast.Load())
             return ast.GeneratorExp(elt=ast.Call(func=node.args[0], args=[v], keywords=[]),
                                     generators=[ast.comprehension(target=ast.Name(id='_m', ctx=ast.Store()), iter=node.args[1], ifs=[], is_async=0)])
+        if isinstance(node.func, ast.Attribute) and node.func.attr == 'format' and isinstance(node.func.value, ast.Constant) \
+                and isinstance(node.func.value.value, str) and not any(isinstance(a, ast.Starred) for a in node.args) \
+                and not any(k.arg is None for k in node.keywords):
+            # 'a{}b{x}'.format(u, x=v)  ->  f'a{u}b{v}'
+            import string
+            try:
+                parts = list(string.Formatter().parse(node.func.value.value))
+            except ValueError:
+                parts = None
+            if parts is not None and all((fs in (None, '') and cv is None) for _, fn_, fs, cv in parts):
+                vals, auto, ok = [], 0, True
+                kw = {k.arg: k.value for k in node.keywords}
+                for lit, fn_, fs, cv in parts:
+                    if lit:
+                        vals.append(ast.Constant(value=lit))
+                    if fn_ is None:
+                        continue
+                    if fn_ == '':
+                        if auto < len(node.args):
+                            v = node.args[auto]
+                            auto += 1
+                        else:
+                            ok = False
+                            break
+                    elif fn_.isdigit() and int(fn_) < len(node.args):
+                        v = node.args[int(fn_)]
+                    elif fn_ in kw:
+                        v = kw[fn_]
+                    else:
+                        ok = False
+                        break
+                    vals.append(ast.FormattedValue(value=v, conversion=-1, format_spec=None))
+                if ok:
+                    return ast.JoinedStr(values=vals)
         if len(node.args) == 1 and not node.keywords and isinstance(node.args[0], ast.IfExp) and isinstance(node.func, (ast.Name, ast.Attribute)):
             ie = node.args[0]
             a = clone(node)
@@ -457,6 +499,7 @@ class Summarizer:
         self.helper_nodes = {}            # every module-level function (for extend(<helper>) expansion)
         self.depth = depth
         self.closures = {}                # name -> FunctionDef of nested defs (statement-level inlining)
+        self.closure_envs = {}            # name -> environment of the enclosing function where the nested def is made
         self.npaths = 0
         self.negof = {}
         self.gast = {}
@@ -515,6 +558,18 @@ class Summarizer:
                         self.negof.setdefault(nt, t)
                     gs.append(t)
         self.effects.append(Effect(kind, text, gs, st.ctx, node, hoist(lhs), hoist(rhs), op))
+
+    def _split(self, g):
+        a = self.gast.get(g)
+        if a is None:
+            return [g]
+        return [canon(c) for c in conjuncts(hoist(a))]
+
+    def _conj_texts(self, st):
+        out = set()
+        for g in st.guards:
+            out.update(self._split(g))
+        return out
 
     def guard(self, node):
         """canonical text of a (substituted) condition, remembered for conjunct splitting"""
@@ -900,12 +955,19 @@ class Summarizer:
             nt = self.guard(neg_ast(tv))
             self.negof[t] = nt
             self.negof[nt] = t
+            have = self._conj_texts(st)
+            ct, cnt = set(self._split(t)), set(self._split(nt))
             a = st.fork()
             a.guards.append(t)
             b = st.fork()
             b.guards.append(nt)
-            ra = self.run(s.body, [a])
-            rb = self.run(s.orelse, [b])
+            # a branch whose condition contradicts what already holds on this path is not taken
+            ra = [] if (len(cnt) == 1 and cnt <= have) else self.run(s.body, [a])
+            rb = [] if (len(ct) == 1 and ct <= have) else self.run(s.orelse, [b])
+            if len(cnt) == 1 and cnt <= have:
+                return rb if False else self.run(s.orelse, [st.fork()])
+            if len(ct) == 1 and ct <= have:
+                return self.run(s.body, [st.fork()])
             # phi: one continuing state on each side, same context, guards = the parent's plus the test -> one state whose
             # differing locals are conditional expressions
             if len(ra) == 1 and len(rb) == 1 and ra[0].ctx == rb[0].ctx == st.ctx \
@@ -989,6 +1051,7 @@ class Summarizer:
                 res = fin
             return res
         if isinstance(s, ast.FunctionDef):
+            self.closure_envs[s.name] = dict(st.env)
             sb = _simple_body(s, allow_comp=True)
             if sb is not None:
                 self.local_defs[s.name] = sb
@@ -1027,7 +1090,7 @@ class Summarizer:
         return out
 
     def summarize(self):
-        st = _State({}, [], [], 0)
+        st = _State(dict(getattr(self, 'initial_env', {})), [], [], 0)
         body = list(self.fnode.body)
         end = self.run(body, [st])
         for s in end:
@@ -1223,7 +1286,10 @@ SUBJECTS = {
     '_core': {'_find_helper', '_to_lexicon'},
     '_add': {'_precheck', '_add_lexical_resource', '_insert_lexicon', '_add_lmf', '_add_ili'},
     '_export': {'_precheck', '_export_lexicon'},
-    'lmf': {'_read_header', '_make_parser', '_validate', '_quick_scan', '_meta_dict'},
+    'lmf': {'_read_header', '_make_parser', '_validate', '_quick_scan', '_meta_dict', '_tostring', '_indent', '_dump_lexicon', '_dump_lexical_entry',
+            '_dump_synset', '_dump_syntactic_behaviour', '_build_lemma', '_build_form', '_build_pronunciation', '_build_tag', '_build_sense',
+            '_build_example', '_build_count', '_build_definition', '_build_ili_definition', '_build_relation', '_build_lexicon_attrib',
+            '_validate_lexicon', '_validate_entries', '_validate_forms', '_validate_senses', '_validate_frames', '_validate_synsets'},
     '_db': {'_init_db', '_check_schema_compatibility'},
     '_queries': set(),
 }
@@ -1240,5 +1306,22 @@ def module_summary(ctx, modshort, qualname):
                    and n not in inl.simple and n not in keep}
         sm = Summarizer(f.node, inl, helpers)
         sm.helper_nodes = {n: fi.node for n, fi in f.module.funcs.items() if '.' not in n}
+        if '.<locals>.' in f.qualname:
+            # a closure: its free variables are the enclosing function's locals, in that function's canonical form
+            outer_q = f.qualname.rsplit('.<locals>.', 1)[0]
+            outer = f.module.funcs.get(outer_q)
+            if outer is not None:
+                om = Summarizer(outer.node, inl, helpers)
+                om.helper_nodes = sm.helper_nodes
+                try:
+                    om.summarize()
+                    base = om.closure_envs.get(f.name, {})
+                    # objects of the enclosing function that are created later (e.g. the parser the handlers are attached to)
+                    for nm, sy in om.cell_sym.items() if isinstance(om.cell_sym, dict) else []:
+                        base.setdefault(nm, ast.Name(id=sy, ctx=ast.Load()))
+                    sm.initial_env = {k: v for k, v in base.items() if k not in f.params}
+                    sm.cell_sym = dict(om.cell_sym)
+                except Opaque:
+                    pass
         return sm.summarize()
     return f, ctx.repo.cache(('summary', f.key), build)
